@@ -324,6 +324,28 @@ def _support_molden_coeffs(lp):
 DECLARED_SUPPORT = {("molden", "_load_helper_coeffs", 0, "True"): _support_molden_coeffs}
 
 
+def job_error_sites():
+    """Every LoadError raised inside a format module is constructed with the LineIterator (or its file name) as second
+    argument, so that the message names the file (and the line): api.load_one / load_many re-raise LoadError unchanged."""
+    led = Ledger()
+    n = 0
+    for name, mod in sorted(api_mod().FORMAT_MODULES.items()):
+        tree, text = source.module_ast(mod.__name__)
+        for node in ast.walk(tree):
+            if isinstance(node, ast.Raise) and isinstance(node.exc, ast.Call) and getattr(node.exc.func, "id", "") == "LoadError":
+                n += 1
+                args = node.exc.args
+                second = ast.unparse(args[1]) if len(args) > 1 else None
+                fn = node
+                while fn is not None and not isinstance(fn, ast.FunctionDef):
+                    fn = getattr(fn, "_parent", None)
+                ok = second in ("lit", "lit.filename")
+                if not ok:
+                    led.record(f"{mod.__name__}.{fn.name if fn else '?'}::raises.LoadError-is-constructed-with-the-line-iterator-(message-names-the-file)", "raises", "refuted", "ast", 0.0, detail=f"line {node.lineno}: second argument {second!r}", witness={"line": node.lineno, "source": (ast.get_source_segment(text, node) or "")[:200]})
+    led.record("iodata.formats::raises.every-LoadError-site-passes-the-line-iterator-or-its-file-name", "raises", "discharged" if n and not any(o.status == "refuted" for o in led.obligations.values()) else ("refuted" if n else "unknown"), "ast", 0.0, detail=f"{n} raise sites")
+    return led
+
+
 def job_termination():
     led = Ledger()
     counts = {"consumes": 0, "finite-for": 0, "counted": 0, "declared": 0}
@@ -419,6 +441,63 @@ for path in files:
         attempt("one", fn, desc)
         if any(hasattr(m, "load_many") and any(__import__("fnmatch").fnmatch(base, p) for p in m.PATTERNS) for m in FORMAT_MODULES.values()):
             attempt("many", fn, desc + " (load_many)")
+# shape consistency of whatever is returned: deterministic sweep (every line-boundary truncation and every single-line
+# deletion) over one small corpus file per format; per-atom arrays incl. those held in dictionaries, basis vs orbitals
+def inconsistent(d):
+    n = d.natom
+    out = []
+    if n is not None:
+        for name in ("atnums", "atcoords", "atcorenums", "atmasses", "atgradient", "atfrozen"):
+            v = getattr(d, name)
+            if v is not None and len(v) != n: out.append(name)
+        for dname in ("atcharges", "atffparams"):
+            for k, v in (getattr(d, dname) or {}).items():
+                try:
+                    if len(v) != n: out.append(dname)
+                except TypeError:
+                    pass
+        if d.athessian is not None and d.athessian.shape != (3 * n, 3 * n): out.append("athessian")
+    if d.obasis is not None:
+        nb = d.obasis.nbasis
+        if d.mo is not None and d.mo.coeffs is not None and d.mo.coeffs.shape[0] != (2 * nb if d.mo.kind == "generalized" else nb): out.append("mo-vs-obasis")
+        for k, v in (d.one_rdms or {}).items():
+            if getattr(v, "shape", None) != (nb, nb): out.append("one_rdms-vs-obasis")
+        # (index ranges - bond partners, shell centres - are values, not shapes: not part of this clause)
+    return sorted(set(out))
+SWEEP = ["water_hf_ccpvtz_freq_qchem.out:qchemlog", "water_sto3g_hf_g03.fchk:fchk", "h_sto3g.fchk:fchk", "h2_sto3g.mkl:molekel", "h2o.molden.input:molden", "h2o_sto3g.wfn:wfn", "h2o_sto3g.wfx:wfx", "water.xyz:xyz", "water_element.xyz:extxyz", "example.sdf:sdf", "ch5plus.pdb:pdb", "caffeine.mol2:mol2", "LiCl_molecule.json:json_qcschema", "POSCAR.water:poscar", "water.gro:gromacs"]
+for item in SWEEP if budget > 100 else SWEEP[:9]:
+    base, fmt = item.split(":")
+    path = os.path.join(data_dir, base)
+    if not os.path.exists(path): continue
+    lines = open(path).read().splitlines(keepends=True)
+    cap = 700 if budget > 100 else 120
+    lines_idx = range(0, len(lines), max(1, -(-len(lines) // cap)))
+    fn = os.path.join(tmp, "sweep_" + base)
+    for i in lines_idx:
+        variants3 = [("truncated", lines[:i]), ("one line deleted", lines[:i] + lines[i + 1:])]
+        m = __import__("re").search(r"(N=\s+)(\d+)", lines[i]) if fmt == "fchk" else None
+        if m and int(m.group(2)) > 1:
+            variants3.append(("array count reduced by one", lines[:i] + [lines[i][:m.start(2)] + str(int(m.group(2)) - 1).rjust(len(m.group(2))) + lines[i][m.end(2):]] + lines[i + 1:]))
+        if fmt == "fchk" and i > 0 and "Shell types" in lines[i - 1]:
+            variants3.append(("last shell type changed", lines[:i] + [lines[i].rstrip("\n")[:-1] + "2\n"] + lines[i + 1:]))
+        for what, content in variants3:
+            cases += 1
+            with open(fn, "w") as fh: fh.write("".join(content))
+            signal.setitimer(signal.ITIMER_REAL, 20.0)
+            try:
+                with warnings.catch_warnings():
+                    warnings.simplefilter("ignore")
+                    d = load_one(fn, fmt=fmt)
+                bad = inconsistent(d)
+                if bad: fails.append((f"{base}: {what} at line {i + 1}", "returned object has inconsistent shapes: " + fmt + "." + bad[0]))
+            except (LoadError, FileFormatError):
+                pass
+            except Timeout:
+                fails.append((f"{base}: {what} at line {i + 1}", "does not terminate within 20 s"))
+            except BaseException as exc:
+                fails.append((f"{base}: {what} at line {i + 1}", "escaping " + type(exc).__name__))
+            finally:
+                signal.setitimer(signal.ITIMER_REAL, 0)
 # resource check: every file opened by the loading functions is closed when the call returns, the iterator is
 # exhausted, closed or discarded (before or after the first frame)
 import builtins, gc
@@ -489,7 +568,7 @@ def run(chk):
         "the file exists and is readable, else the operating system's error of open() escapes",
         "termination: the ghost measure 'lines left + push-back depth' is finite (finite file)",
     ]
-    jobs = [("checks.c07", f, {}) for f in ("job_load_one", "job_load_many", "job_line_iterator", "job_errors", "job_termination")]
+    jobs = [("checks.c07", f, {}) for f in ("job_load_one", "job_load_many", "job_line_iterator", "job_errors", "job_error_sites", "job_termination")]
     res = collect(chk, run_jobs(jobs))
     for r in res:
         if "loop_counts" in r:
